@@ -804,7 +804,12 @@ func (f *fragment) setRow(row *Row, rowID uint64) (bool, error) {
 	if mustClose {
 		defer f.safeClose()
 	}
-	return f.unprotectedSetRow(row, rowID)
+	changed, err := f.unprotectedSetRow(row, rowID)
+	// The change is not in the op log: it is durable only once the requested
+	// snapshot has replaced the data file, so wait for it before the write
+	// is acknowledged.
+	f.unprotectedAwaitSnapshot()
+	return changed, err
 }
 
 func (f *fragment) unprotectedSetRow(row *Row, rowID uint64) (changed bool, err error) {
@@ -822,17 +827,16 @@ func (f *fragment) unprotectedSetRow(row *Row, rowID uint64) (changed bool, err 
 		f.storage.Containers.Remove(headContainerKey + i)
 	}
 
-	// From the given row, get the rowSegment for this shard.
-	seg := row.segment(f.shard)
-	if seg == nil {
-		return changed, nil
-	}
-
-	// Put each container from rowSegment to fragment storage.
-	citer, _ := seg.data.Containers.Iterator(f.shard << shardVsContainerExponent)
-	for citer.Next() {
-		k, c := citer.Value()
-		f.storage.Containers.Put(headContainerKey+(k%(1<<shardVsContainerExponent)), c)
+	// From the given row, get the rowSegment for this shard. Without one
+	// the source row is empty here and the row stays cleared; the cache
+	// updates and the snapshot below are needed all the same.
+	if seg := row.segment(f.shard); seg != nil {
+		// Put each container from rowSegment to fragment storage.
+		citer, _ := seg.data.Containers.Iterator(f.shard << shardVsContainerExponent)
+		for citer.Next() {
+			k, c := citer.Value()
+			f.storage.Containers.Put(headContainerKey+(k%(1<<shardVsContainerExponent)), c)
+		}
 	}
 
 	// Update the row in cache.
@@ -863,7 +867,12 @@ func (f *fragment) clearRow(rowID uint64) (bool, error) {
 	if mustClose {
 		defer f.safeClose()
 	}
-	return f.unprotectedClearRow(rowID)
+	changed, err := f.unprotectedClearRow(rowID)
+	// The change is not in the op log: it is durable only once the requested
+	// snapshot has replaced the data file, so wait for it before the write
+	// is acknowledged.
+	f.unprotectedAwaitSnapshot()
+	return changed, err
 }
 
 func (f *fragment) unprotectedClearRow(rowID uint64) (changed bool, err error) {
